@@ -176,9 +176,11 @@ class Findings:
         self.prop = prop
         self.known = {}  # (case, observed) -> text
         self.path = os.path.join(ROOT, "KNOWN_FINDINGS.txt")
-        if not os.path.exists(self.path):
-            return
-        for line in open(self.path):
+        lines = []
+        for path in [self.path, os.path.join(ROOT, "findings", prop + ".known")]:
+            if os.path.exists(path):
+                lines += list(open(path))
+        for line in lines:
             line = line.strip()
             if line.startswith("known:"):
                 kv = _kv(line[6:])
